@@ -77,8 +77,8 @@ func recvAac(p []byte) (out [][]byte) {
 func checkVideo(t *rapid.T, c Codec, s *Stream, maxPacket int) {
 	var pl [][]byte
 	for i, p := range s.Pkts {
-		if 12+len(p.Payload) > maxPacket {
-			t.Fatalf("packet %d is %d bytes", i, 12+len(p.Payload))
+		if len(p.Marshal()) > maxPacket {
+			t.Fatalf("packet %d is %d bytes", i, len(p.Marshal()))
 		}
 		if i > 0 && p.Seq != s.Pkts[i-1].Seq+1 {
 			t.Fatalf("seq not consecutive at %d", i)
@@ -262,5 +262,32 @@ func TestWholeParamSets(t *testing.T) {
 	})
 	if frag == 0 {
 		t.Fatal("no fragments at all")
+	}
+}
+
+func TestHeaderExtras(t *testing.T) {
+	ext, csrc, big := 0, 0, 0
+	rapid.Check(t, func(t *rapid.T) {
+		c := rapid.SampledFrom([]Codec{H264, H265}).Draw(t, "codec")
+		s := VideoStream(Config{Codec: c}, PackConfig{HeaderExtras: true}).Draw(t, "s")
+		checkVideo(t, c, s, 65535)
+		for _, p := range s.Pkts {
+			if p.HasExt && len(p.Ext) > 0 {
+				ext++
+			}
+			if len(p.CSRC) > 0 {
+				csrc++
+			}
+			if len(p.Marshal()) > 65400 {
+				big++
+			}
+			q := rtppack.ToIpchub(0, p.Marshal()) // ipchub (pion) must accept every decorated header and find the payload
+			if !bytes.Equal(q.Payload(), p.Payload) {
+				t.Fatalf("payload behind CSRC %d ext %04x %x not found: %x", len(p.CSRC), p.ExtProfile, p.Ext, q.Payload()[:4])
+			}
+		}
+	})
+	if ext == 0 || csrc == 0 || big == 0 {
+		t.Fatalf("ext %d csrc %d big %d", ext, csrc, big)
 	}
 }
